@@ -364,6 +364,118 @@ def run_id_comment_pair(prog, tier, repo):
     return [res]
 
 
+# ---------------------------------------------------------------------------------------------------------------------
+# The parenthesis decider of the printer, found by role: a printer function with two `&E` parameters (parent, child) and a
+# trailing *mode* parameter - a bool or a field-less enum - that compares `E::precedence()` of the two, itself or in a small
+# predicate it calls. `eq_values` are the mode values under which an EQUAL precedence yields parentheses (the branch that
+# compares with `>=`).
+
+def _mode_type_ok(prog, t):
+    if t.s == 'bool':
+        return True
+    a = prog.adts.get(t.id) if t.k == 'adt' else None
+    return a is not None and a.kind == 'enum' and len(a.variants) >= 2 and all(not v.fields for v in a.variants)
+
+
+def _e_params(b):
+    return [i for i in range(1, b.nargs + 1) if b.locals[i].k == 'ref' and b.locals[i].args and b.locals[i].args[0].k == 'adt'
+            and b.locals[i].args[0].name == E]
+
+
+def _calls_precedence(b):
+    return any((callee(bl.term)[1] or '').endswith('E::<T>::precedence') for bl in b.blocks if bl.term[0] == 'call' and not bl.cleanup)
+
+
+def _eq_values_in(b, mode_param):
+    """mode values whose branch compares with Ge"""
+    cfg = cfg_of(b)
+    out = set()
+    for bi, bl in enumerate(b.blocks):
+        t = bl.term
+        if bl.cleanup or t[0] != 'switch' or t[1][0] not in ('c', 'm'):
+            continue
+        l = t[1][1].local
+        is_mode = (l == mode_param and not t[1][1].proj)
+        if not is_mode:
+            sd = single_def(b, l)
+            if sd and sd[1] != 'term' and sd[2][0] == 'disc' and root_local(b, sd[2][1].local)[0] == mode_param:
+                is_mode = True
+            elif sd and sd[1] != 'term' and sd[2][0] == 'use' and sd[2][1][0] in ('c', 'm') and root_local(b, sd[2][1][1].local)[0] == mode_param:
+                is_mode = True
+        if not is_mode:
+            continue
+        targets = [(v, tg) for v, tg in t[2]] + [(None, t[3])]
+        reach = {tg: cfg.reachable(tg) for _v, tg in targets}
+        for v, tg in targets:
+            others = set()
+            for _v2, tg2 in targets:
+                if tg2 != tg:
+                    others |= reach[tg2]
+            excl = reach[tg] - others
+            has_ge = any(st[0] == 'a' and st[2][0] == 'bin' and st[2][1] == 'Ge' for x in excl for st in b.blocks[x].stmts)
+            if has_ge:
+                if v is not None:
+                    out.add(v)
+                else:
+                    # the otherwise edge: every value not listed
+                    listed = {vv for vv, _ in t[2]}
+                    out |= ({0, 1} - listed) if b.locals[mode_param].s == 'bool' else set(range(8)) - listed
+    return out
+
+
+def find_decider(prog):
+    """(decider body, [parent idx, child idx], mode param idx, eq_values) or None"""
+    found = []
+    for b in prog.bodies.values():
+        if b.crate != 'samlang_printer' or b.kind == 'closure' or b.nargs < 3 or not _mode_type_ok(prog, b.locals[b.nargs]):
+            continue
+        if b.locals[0].s == 'bool':
+            continue        # a predicate, not the function that prints
+        es = _e_params(b)
+        if len(es) != 2:
+            continue
+        if _calls_precedence(b):
+            found.append((b, es, b.nargs, _eq_values_in(b, b.nargs)))
+            continue
+        # the comparison may live in a small predicate that receives both expressions and the mode
+        for bl in b.blocks:
+            t = bl.term
+            if bl.cleanup or t[0] != 'call':
+                continue
+            h = prog.bodies.get(callee(t)[0])
+            if h is None or h.crate != 'samlang_printer' or h.kind == 'closure' or len(h.blocks) > 40 or not _calls_precedence(h):
+                continue
+            if len(_e_params(h)) != 2:
+                continue
+            mode_pos = [k + 1 for k, o in enumerate(t[3]) if o[0] in ('c', 'm') and root_local(b, o[1].local)[0] == b.nargs]
+            if len(mode_pos) == 1:
+                found.append((b, es, b.nargs, _eq_values_in(h, mode_pos[0])))
+                break
+    return found[0] if len(found) == 1 else (None if not found else found)
+
+
+def mode_value(prog, b, op):
+    """the constant value of a mode argument: bool constant, or the variant index of a field-less enum value"""
+    if op[0] == 'k':
+        if op[1].i is not None:
+            return op[1].i
+        a = prog.adts.get(op[1].ty.id) if op[1].ty.k == 'adt' else None
+        if a is not None:
+            for i, v in enumerate(a.variants):
+                if (op[1].v or '').endswith('::' + v.name):
+                    return i
+        return None
+    if op[0] in ('c', 'm') and not op[1].proj:
+        sd = single_def(b, op[1].local)
+        if sd and sd[1] != 'term':
+            rv = sd[2]
+            if rv[0] == 'use':
+                return mode_value(prog, b, rv[1])
+            if rv[0] == 'agg' and rv[1][0] == 'adt' and not rv[2]:
+                return rv[1][2]
+    return None
+
+
 def run_paren_assoc(prog, tier, repo):
     """PAREN-ASSOC (C08): the parser builds binary expressions left-associatively, so a right operand of the *same*
     precedence level keeps its parentheses: wherever the printer decides about parentheses for the right operand of a
@@ -374,20 +486,11 @@ def run_paren_assoc(prog, tier, repo):
     if binary is None:
         res.cannot_decide('expr::Binary')
         return [res]
-    # the parenthesis decider: printer function (.., &E, &E, bool) that calls E::precedence
-    deciders = []
-    for b in prog.bodies.values():
-        if b.crate != 'samlang_printer' or b.kind == 'closure' or b.nargs < 3:
-            continue
-        if b.locals[b.nargs].s != 'bool':
-            continue
-        es = [i for i in range(1, b.nargs + 1) if b.locals[i].k == 'ref' and b.locals[i].args[0].k == 'adt' and b.locals[i].args[0].name == E]
-        if len(es) == 2 and any((callee(bl.term)[1] or '').endswith('E::<T>::precedence') for bl in b.blocks if bl.term[0] == 'call'):
-            deciders.append((b, es))
-    if len(deciders) != 1:
-        res.cannot_decide(f'the parenthesis decider of the printer (found {len(deciders)})')
+    fd = find_decider(prog)
+    if fd is None or isinstance(fd, list) or not fd[3]:
+        res.cannot_decide('the parenthesis decider of the printer (a function of parent, child and a mode that compares precedences)')
         return [res]
-    dec, es = deciders[0]
+    dec, es, _mp, eq_values = fd
     sub_idx = es[1] - 1
     flag_idx = dec.nargs - 1
     n = 0
@@ -408,7 +511,7 @@ def run_paren_assoc(prog, tier, repo):
             key = f'{base}#{seen[base]}'
             flag = t[3][flag_idx]
             if side == 'e2':
-                if flag[0] == 'k' and flag[1].i == 1:
+                if mode_value(prog, b, flag) in eq_values:
                     res.ok(key, b.loc(t[7]), 'right operand: parenthesised at equal precedence')
                 else:
                     res.violation(key, b.loc(t[7]), f'{b.name} decides about parentheses for the right operand of a binary expression '
@@ -518,17 +621,11 @@ def run_paren_sink(prog, tier, repo):
     res = RuleResult('PAREN-SINK', 'C08: every sub-expression printed in an undelimited position (unary operand, binary operands, '
                      'lambda body, base of a member/call chain) goes through the precedence decider, never straight to the plain '
                      'expression printer')
-    deciders = []
-    for b in prog.bodies.values():
-        if b.crate != 'samlang_printer' or b.kind == 'closure' or b.nargs < 3 or b.locals[b.nargs].s != 'bool':
-            continue
-        es = [i for i in range(1, b.nargs + 1) if b.locals[i].k == 'ref' and b.locals[i].args[0].k == 'adt' and b.locals[i].args[0].name == E]
-        if len(es) == 2 and any((callee(bl.term)[1] or '').endswith('E::<T>::precedence') for bl in b.blocks if bl.term[0] == 'call'):
-            deciders.append((b, es))
-    if len(deciders) != 1:
-        res.cannot_decide(f'the parenthesis decider of the printer (found {len(deciders)})')
+    fd = find_decider(prog)
+    if fd is None or isinstance(fd, list):
+        res.cannot_decide('the parenthesis decider of the printer (a function of parent, child and a mode that compares precedences)')
         return [res]
-    dec, es = deciders[0]
+    dec, es = fd[0], fd[1]
     sub_idx = es[1] - 1
     # plain expression printers: printer functions with exactly one &E parameter returning what the decider returns, that the
     # decider itself calls
@@ -1012,12 +1109,16 @@ def run_paren_unary_level(prog, tier, repo):
         res.cannot_decide('the parser production that builds E::Unary and the production it takes its operand from')
         return [res]
     # printer side: the decider call for Unary.argument
+    fd_ = find_decider(prog)
+    if fd_ is None or isinstance(fd_, list):
+        res.cannot_decide('the parenthesis decider of the printer')
+        return [res]
     n = 0
     for b in prog.bodies.values():
         if b.crate != 'samlang_printer' or '::tests' in b.name:
             continue
-        for bi, t in call_sites(b, lambda nm: nm.endswith('create_doc_for_subexpression_considering_precedence_level')):
-            sub = t[3][3] if len(t[3]) >= 5 else None
+        for bi, t in call_sites(b, lambda nm: fd_ is not None and nm == fd_[0].name):
+            sub = t[3][fd_[1][1] - 1] if len(t[3]) >= fd_[0].nargs else None
             if sub is None:
                 continue
             r, p = operand_root(b, sub)
@@ -1025,9 +1126,9 @@ def run_paren_unary_level(prog, tier, repo):
             if not fs or not prog.adts[fs[-1][1]].name.endswith('expr::Unary') or fs[-1][4] != 'argument':
                 continue
             n += 1
-            flag = t[3][4]
+            flag = t[3][fd_[0].nargs - 1]
             key = f'unary-operand:{b.name}'
-            if recursive or (flag[0] == 'k' and flag[1].i == 1):
+            if recursive or (mode_value(prog, b, flag) in fd_[3]):
                 res.ok(key, b.loc(t[7]), 'equal-precedence unary operand is parenthesised' if not recursive else 'the parser accepts nested unary operators')
             else:
                 res.violation(key, b.loc(t[7]), f'{b.name} prints a unary operand without parentheses when it has the same precedence as the '
@@ -1182,8 +1283,8 @@ def run_plain_position(prog, tier, repo):
                             if g is not None:
                                 built.setdefault((adt.name.split('::')[-1], f.name), set()).add(g)
     # ---- printer side: children handed to the plain printer
-    deciders = [b for b in prog.bodies.values() if b.crate == 'samlang_printer' and b.kind != 'closure'
-                and b.name.endswith('create_doc_for_subexpression_considering_precedence_level')]
+    fdp = find_decider(prog)
+    deciders = [fdp[0]] if fdp is not None and not isinstance(fdp, list) else []
     plain = {b.id for b in prog.bodies.values() if b.crate == 'samlang_printer' and b.name.endswith('::create_doc')}
     if not plain:
         res.cannot_decide('the plain expression printer')
